@@ -797,6 +797,19 @@ def _run(world: World, plan):
             elif st == 'ABORTED':
                 if reason in allowed:
                     world.probe('settled_aborted_path_not_current')
+                elif span_class(user, target, False) == 'under_1s' and kind != 'final' and not rec.get('requeue_deferred'):
+                    # a prohibition that came and went between two looks at the settings emits no event: it is the periodic
+                    # evaluation that puts the upload back, at the latest one evaluation period (5 s) plus one idle wait of
+                    # the management (5 s) after the last evaluation - looked at again 4 s from now
+                    rec['requeue_deferred'] = True
+                    n_now = chg['n']
+
+                    def again(tr=tr, reason=reason, kind=kind, user=user, target=target, n_now=n_now):
+                        if chg['n'] == n_now and tr in tm.transfers and tr.state.VALUE.name == 'ABORTED' \
+                                and tr.abort_reason == reason:
+                            world.violate('C08.settle_requeue', reason=reason, change=kind, forbidden_for='under_1s')
+                    loop.call_later(4.0, again)
+                    world.probe('settle_requeue_looked_at_again_later')
                 else:
                     world.violate('C08.settle_requeue', reason=reason, change=kind,
                                   forbidden_for=span_class(user, target, False))
@@ -1152,7 +1165,7 @@ def _run(world: World, plan):
         if pending_scans:
             await do_scan('rescan-at-end')
             mark_change('rescan')
-        await asyncio.sleep(SETTLE + 1.0)
+        await asyncio.sleep(SETTLE + 5.0)
         world.probe('final_evaluation')
         evaluate('final')
         if plan.get('busy'):
